@@ -1897,7 +1897,7 @@ pub fn lane_closed_output(seed: u64) -> Vec<Scenario> {
         .enumerate()
         .map(|(i, mut s)| {
             s.lane = format!("closed-output-{}", s.lane);
-            s.sim.faults.push(Fault::OutputClosed { nth: (i % 3) as u32 });
+            s.sim.faults.push(Fault::OutputClosed { nth: (i % 3) as u32, which: (i / 3 % 3) as u8 });
             s.cli.debug = i % 2 == 0;
             // (no report can be expected; only the directories are looked at)
             s.pretty = true;
@@ -2141,4 +2141,26 @@ pub fn lane_duo(seed: u64, n: usize) -> Vec<Scenario> {
         out.push(a);
     }
     out
+}
+
+/// C05 / C15 / C20 with scrut's own STDERR cut off (a log collector that went away, `2>&1 >report
+/// | head`): diagnostics that go nowhere must not change a single result, the report on stdout or
+/// the exit status. (With `--debug`, or with stdout cut off, the unchanged tree ends in a panic
+/// of `eprintln!` / `print!` - recorded in DESIGN as an observation, not generated here: the
+/// three properties quantify over documents and configurations, not over faults.)
+pub fn lane_closed_stderr(seed: u64) -> Vec<Scenario> {
+    let mut pool: Vec<Scenario> = vec![];
+    pool.extend(lane_skip(seed ^ 0x5de).into_iter().step_by(4));
+    pool.extend(lane_skip_interplay(seed ^ 0x5de).into_iter().step_by(6));
+    pool.extend(lane_runs(seed ^ 0x5de).into_iter().step_by(6));
+    pool.extend(lane_cli_fates(seed ^ 0x5de, 9));
+    pool.into_iter()
+        .filter(|s| s.tier == Tier::Cli && !s.pretty && s.cli.command.is_none() && !s.cli.debug)
+        .enumerate()
+        .map(|(i, mut s)| {
+            s.lane = format!("closed-stderr/{}", s.lane);
+            s.sim.faults.push(Fault::OutputClosed { nth: (i % 3) as u32, which: 2 });
+            s
+        })
+        .collect()
 }
